@@ -564,6 +564,7 @@ structure AlgLaws (canon : Tr → C) where
   config : ∀ S c L, Repr S c L → (A.view S).config = c
   routes : ∀ S c L, Repr S c L → ((A.view S).routes).Perm L
   match_nodup : ∀ S c L, Repr S c L → ∀ q, NodupIds rid ((A.view S).matchReq q)
+  match_sub : ∀ S c L, Repr S c L → ∀ q x, x ∈ (A.view S).matchReq q → x ∈ L
   match_perm : ∀ S S' c L L', Repr S c L → Repr S' c L' → (∀ x, x ∈ L ↔ x ∈ L') →
     ∀ q, ((A.view S).matchReq q).Perm ((A.view S').matchReq q)
   trace_canon : ∀ S S' c L L', Repr S c L → Repr S' c L' → (∀ x, x ∈ L ↔ x ∈ L') →
@@ -623,6 +624,332 @@ theorem repr_projectRouter (base : St) (c : Cfg) (B : List Rule) (D : ChangeSet 
   · refine ⟨D.live rid B, ?_, fun _ => Iff.rfl⟩
     simp only [he, Bool.false_eq_true, if_false]
     exact W.repr_changeSet base c B D h hv
+
+end
+
+/-! ### a reference algebra: the router that keeps the list of live rules (non-vacuity of `AlgLaws`) -/
+
+section
+variable {Rule Req Cfg Id : Type} [DecidableEq Id]
+
+theorem insertAll_append (rid : Rule → Id) (a b L : List Rule) :
+    insertAll (a ++ b) L = insertAll b (insertAll a L) := by
+  simp [insertAll, List.foldl_append]
+
+theorem nodupIds_insertAll (rid : Rule → Id) (rs : List Rule) : ∀ (L : List Rule), NodupIds rid L →
+    FreshAll rid rs L → NodupIds rid (insertAll rs L) := by
+  induction rs with
+  | nil => intro L h _; exact h
+  | cons r t ih =>
+    intro L h hf
+    have : insertAll (r :: t) L = insertAll t (r :: L) := rfl
+    rw [this]
+    apply ih _ _ hf.2
+    unfold NodupIds
+    rw [List.map_cons, List.nodup_cons]
+    exact ⟨hf.1, h⟩
+
+theorem nodupIds_live (rid : Rule → Id) (D : ChangeSet Rule Id) (L : List Rule) (h : NodupIds rid L)
+    (hv : ValidChangeSet rid D L) : NodupIds rid (D.live rid L) := by
+  unfold ChangeSet.live liveChangeSet
+  rw [← insertAll_append rid]
+  exact nodupIds_insertAll rid _ _ (NodupIds.filter h _) hv
+
+/-- the ids listed by a trace, as a set -/
+def idSet (rid : Rule → Id) (t : List Rule) : Id → Bool := fun id => (t.map rid).contains id
+
+/-- `Router` as the plain list of live rules; `sat` is the flat matching predicate (C01). -/
+def listAlg (rid : Rule → Id) (sat : Cfg → Rule → Req → Bool) :
+    Alg (Cfg × List Rule) Rule Req Cfg (List Rule) Id where
+  empty c := (c, [])
+  insert r S := (S.1, r :: S.2)
+  remove id S := (S.1, S.2.filter (fun r => decide (rid r ≠ id)))
+  applyChangeSet a u d S := (S.1, liveChangeSet rid a u d S.2)
+  view S := ⟨S.1, S.2, fun q => S.2.filter (fun r => sat S.1 r q), fun q => S.2.filter (fun r => sat S.1 r q)⟩
+
+theorem filter_perm_of_mem_iff {L L' : List Rule} (hn : L.Nodup) (hn' : L'.Nodup) (hm : ∀ x, x ∈ L ↔ x ∈ L')
+    (p : Rule → Bool) : (L.filter p).Perm (L'.filter p) := by
+  rw [List.perm_ext_iff_of_nodup (hn.filter _) (hn'.filter _)]
+  intro x
+  simp only [List.mem_filter, hm x]
+
+def listLaws (rid : Rule → Id) (sat : Cfg → Rule → Req → Bool) :
+    AlgLaws (listAlg (Req := Req) rid sat) rid (idSet rid) where
+  Repr S c L := S = (c, L) ∧ NodupIds rid L
+  repr_empty c := ⟨rfl, by simp [NodupIds]⟩
+  repr_insert S c L r h hf := by
+    obtain ⟨rfl, hn⟩ := h
+    refine ⟨rfl, ?_⟩
+    unfold NodupIds
+    rw [List.map_cons, List.nodup_cons]
+    exact ⟨hf, hn⟩
+  repr_remove S c L id h := by
+    obtain ⟨rfl, hn⟩ := h
+    exact ⟨rfl, NodupIds.filter hn _⟩
+  repr_changeSet S c L D h hv := by
+    obtain ⟨rfl, hn⟩ := h
+    exact ⟨rfl, nodupIds_live rid D L hn hv⟩
+  nodup S c L h := h.2
+  config S c L h := by obtain ⟨rfl, _⟩ := h; rfl
+  routes S c L h := by obtain ⟨rfl, _⟩ := h; exact List.Perm.refl _
+  match_nodup S c L h q := by
+    obtain ⟨rfl, hn⟩ := h
+    exact NodupIds.filter hn _
+  match_sub S c L h q x hx := by
+    obtain ⟨rfl, hn⟩ := h
+    exact (List.mem_filter.mp hx).1
+  match_perm S S' c L L' h h' hm q := by
+    obtain ⟨rfl, hn⟩ := h
+    obtain ⟨rfl, hn'⟩ := h'
+    exact filter_perm_of_mem_iff (NodupIds.nodup hn) (NodupIds.nodup hn') hm _
+  trace_canon S S' c L L' h h' hm q := by
+    obtain ⟨rfl, hn⟩ := h
+    obtain ⟨rfl, hn'⟩ := h'
+    funext id
+    have := filter_perm_of_mem_iff (NodupIds.nodup hn) (NodupIds.nodup hn') hm (fun r => sat c r q)
+    simp only [idSet, listAlg]
+    rw [Bool.eq_iff_iff]
+    simp only [List.contains_iff_mem, List.mem_map]
+    constructor
+    · rintro ⟨r, hr, rfl⟩; exact ⟨r, this.mem_iff.mp hr, rfl⟩
+    · rintro ⟨r, hr, rfl⟩; exact ⟨r, this.mem_iff.mpr hr, rfl⟩
+
+end
+
+/-! ### handlers: from an algebra over payload-free routes to one over (route, handler) pairs
+
+W2's router model stores `Route`s without their handler (`Rule`).  The construction below adds the
+handlers as a second association list keyed by the id – what `Route<Rule>::handler()` returns – and
+shows that the representation laws carry over, so the theorems apply to rules whose *actions* change
+while their triggers do not. -/
+
+section
+variable {St R Req Cfg Tr C Id Pl : Type} [DecidableEq Id]
+
+theorem lookupA_filter {β : Type} (p : Id → Bool) (k : Id) (hk : p k = true) (H : List (Id × β)) :
+    lookupA k (H.filter (fun e => p e.1)) = lookupA k H := by
+  induction H with
+  | nil => rfl
+  | cons e t ih =>
+    obtain ⟨k', v⟩ := e
+    by_cases hp : p k' = true
+    · simp only [List.filter_cons, hp, if_true, lookupA, ih]
+    · have hne : k' ≠ k := fun h => hp (h ▸ hk)
+      simp only [List.filter_cons, hp, Bool.false_eq_true, if_false, lookupA, hne, ih]
+
+def insertAllH (rid : R → Id) (rs : List (R × Pl)) (H : List (Id × Pl)) : List (Id × Pl) :=
+  rs.foldl (fun H rp => (rid rp.1, rp.2) :: H) H
+
+/-- `Router<Rule>`: the matcher tower over routes plus `handler()` of every stored route. -/
+def withPayload (A : Alg St R Req Cfg Tr Id) (rid : R → Id) :
+    Alg (St × List (Id × Pl)) (R × Pl) Req Cfg Tr Id where
+  empty c := (A.empty c, [])
+  insert rp S := (A.insert rp.1 S.1, (rid rp.1, rp.2) :: S.2)
+  remove id S := (A.remove id S.1, S.2.filter (fun e => decide (e.1 ≠ id)))
+  applyChangeSet a u d S :=
+    (A.applyChangeSet (a.map (·.1)) (u.map (·.1)) d S.1,
+     insertAllH rid a (insertAllH rid u
+       (S.2.filter (fun e => !(d ++ u.map (fun rp => rid rp.1)).contains e.1))))
+  view S :=
+    let g : R → Option (R × Pl) := fun r => (lookupA (rid r) S.2).map fun p => (r, p)
+    ⟨(A.view S.1).config, (A.view S.1).routes.filterMap g,
+     fun q => ((A.view S.1).matchReq q).filterMap g, (A.view S.1).trace⟩
+
+theorem filterMap_congr' {α β : Type} (l : List α) (f g : α → Option β) (h : ∀ x ∈ l, f x = g x) :
+    l.filterMap f = l.filterMap g := by
+  induction l with
+  | nil => rfl
+  | cons a t ih =>
+    simp only [List.filterMap_cons, h a (by simp)]
+    rw [ih (fun x hx => h x (by simp [hx]))]
+
+theorem filterMap_map_of_left_inv {α β : Type} (f : α → β) (g : β → Option α) (L : List α)
+    (h : ∀ x ∈ L, g (f x) = some x) : (L.map f).filterMap g = L := by
+  induction L with
+  | nil => rfl
+  | cons x t ih =>
+    simp only [List.map_cons, List.filterMap_cons, h x (by simp)]
+    rw [ih (fun y hy => h y (by simp [hy]))]
+
+theorem map_rid_filterMap_sublist (rid : R → Id) (H : List (Id × Pl)) (m : List R) :
+    ((m.filterMap (fun r => (lookupA (rid r) H).map fun p => (r, p))).map (fun rp => rid rp.1)).Sublist
+      (m.map rid) := by
+  induction m with
+  | nil => simp
+  | cons r t ih =>
+    cases h : lookupA (rid r) H with
+    | none => simp only [List.filterMap_cons, h, Option.map_none, List.map_cons]; exact ih.cons _
+    | some p =>
+      simp only [List.filterMap_cons, h, Option.map_some, List.map_cons]
+      exact ih.cons_cons _
+
+theorem freshAll_map (rid : R → Id) (rs : List (R × Pl)) : ∀ (L : List (R × Pl)),
+    FreshAll (fun rp : R × Pl => rid rp.1) rs L → FreshAll rid (rs.map (·.1)) (L.map (·.1)) := by
+  induction rs with
+  | nil => intro L _; trivial
+  | cons rp t ih =>
+    intro L hf
+    refine ⟨?_, ?_⟩
+    · have := hf.1
+      simpa [List.map_map, Function.comp] using this
+    · have := ih (rp :: L) hf.2
+      simpa using this
+
+theorem insertAll_map (rs L : List (R × Pl)) :
+    (insertAll rs L).map (·.1) = insertAll (rs.map (·.1)) (L.map (·.1)) := by
+  induction rs generalizing L with
+  | nil => rfl
+  | cons rp t ih =>
+    show (insertAll t (rp :: L)).map (·.1) = insertAll (t.map (·.1)) (rp.1 :: L.map (·.1))
+    rw [ih]; rfl
+
+theorem live_map (rid : R → Id) (D : ChangeSet (R × Pl) Id) (L : List (R × Pl)) :
+    (D.live (fun rp => rid rp.1) L).map (·.1) =
+      (ChangeSet.mk (D.added.map (·.1)) (D.updated.map (·.1)) D.deleted).live rid (L.map (·.1)) := by
+  unfold ChangeSet.live liveChangeSet
+  rw [insertAll_map, insertAll_map]
+  simp only [List.filter_map, List.map_map]
+  rfl
+
+theorem valid_map (rid : R → Id) (D : ChangeSet (R × Pl) Id) (L : List (R × Pl))
+    (hv : ValidChangeSet (fun rp => rid rp.1) D L) :
+    ValidChangeSet rid (ChangeSet.mk (D.added.map (·.1)) (D.updated.map (·.1)) D.deleted) (L.map (·.1)) := by
+  unfold ValidChangeSet at *
+  have := freshAll_map rid _ _ hv
+  rw [List.map_append] at this
+  simp only [List.filter_map, List.map_map]
+  exact this
+
+/-- handlers stay right along a sequence of fresh insertions -/
+theorem lookup_insertAllH (rid : R → Id) (rs : List (R × Pl)) : ∀ (L : List (R × Pl)) (H : List (Id × Pl)),
+    (∀ rp ∈ L, lookupA (rid rp.1) H = some rp.2) → FreshAll (fun rp : R × Pl => rid rp.1) rs L →
+    ∀ rp ∈ insertAll rs L, lookupA (rid rp.1) (insertAllH rid rs H) = some rp.2 := by
+  induction rs with
+  | nil => intro L H h _ rp hrp; exact h rp hrp
+  | cons x t ih =>
+    intro L H h hf
+    show ∀ rp ∈ insertAll t (x :: L), lookupA (rid rp.1) (insertAllH rid t ((rid x.1, x.2) :: H)) = some rp.2
+    apply ih (x :: L) _ _ hf.2
+    intro rp hrp
+    rcases List.mem_cons.mp hrp with h1 | h1
+    · subst h1; simp [lookupA]
+    · have hne : rid x.1 ≠ rid rp.1 := by
+        intro heq
+        apply hf.1
+        show rid x.1 ∈ L.map (fun rp : R × Pl => rid rp.1)
+        rw [heq]
+        exact List.mem_map_of_mem (f := fun rp : R × Pl => rid rp.1) h1
+      simp only [lookupA, hne, if_false]
+      exact h rp h1
+
+/-- The laws carry over from routes to (route, handler) pairs. -/
+def withPayloadLaws {A : Alg St R Req Cfg Tr Id} {rid : R → Id} {canon : Tr → C}
+    (W : AlgLaws A rid canon) :
+    AlgLaws (withPayload (Pl := Pl) A rid) (fun rp : R × Pl => rid rp.1) canon where
+  Repr S c L := W.Repr S.1 c (L.map (·.1)) ∧ ∀ rp ∈ L, lookupA (rid rp.1) S.2 = some rp.2
+  repr_empty c := ⟨W.repr_empty c, by intro rp h; cases h⟩
+  repr_insert S c L rp h hf := by
+    refine ⟨?_, ?_⟩
+    · have := W.repr_insert S.1 c (L.map (·.1)) rp.1 h.1 (by simpa [List.map_map, Function.comp] using hf)
+      simpa [withPayload] using this
+    · intro x hx
+      rcases List.mem_cons.mp hx with h1 | h1
+      · subst h1; simp [withPayload, lookupA]
+      · have hne : rid rp.1 ≠ rid x.1 := by
+          intro heq
+          apply hf
+          show rid rp.1 ∈ L.map (fun rp : R × Pl => rid rp.1)
+          rw [heq]
+          exact List.mem_map_of_mem (f := fun rp : R × Pl => rid rp.1) h1
+        simp only [withPayload, lookupA, hne, if_false]
+        exact h.2 x h1
+  repr_remove S c L id h := by
+    refine ⟨?_, ?_⟩
+    · have := W.repr_remove S.1 c (L.map (·.1)) id h.1
+      rw [List.filter_map] at this
+      exact this
+    · intro x hx
+      have hx' := List.mem_filter.mp hx
+      have hne : rid x.1 ≠ id := by simpa using hx'.2
+      have := lookupA_filter (fun k => decide (k ≠ id)) (rid x.1) (by simpa using hne) S.2
+      simp only [withPayload]
+      rw [this]
+      exact h.2 x hx'.1
+  repr_changeSet S c L D h hv := by
+    refine ⟨?_, ?_⟩
+    · have := W.repr_changeSet S.1 c (L.map (·.1))
+        (ChangeSet.mk (D.added.map (·.1)) (D.updated.map (·.1)) D.deleted) h.1 (valid_map rid D L hv)
+      rw [live_map]
+      simpa [withPayload] using this
+    · intro x hx
+      unfold ChangeSet.live liveChangeSet at hx
+      rw [← insertAll_append (fun rp : R × Pl => rid rp.1)] at hx
+      have hbase : ∀ rp ∈ L.filter (fun r => !(D.deleted ++ D.updated.map (fun rp => rid rp.1)).contains (rid r.1)),
+          lookupA (rid rp.1)
+            (S.2.filter (fun e => !(D.deleted ++ D.updated.map (fun rp => rid rp.1)).contains e.1)) = some rp.2 := by
+        intro rp hrp
+        have hrp' := List.mem_filter.mp hrp
+        rw [lookupA_filter (fun k => !(D.deleted ++ D.updated.map (fun rp => rid rp.1)).contains k)
+          (rid rp.1) hrp'.2 S.2]
+        exact h.2 rp hrp'.1
+      have := lookup_insertAllH rid (D.updated ++ D.added) _ _ hbase hv x hx
+      have hH : insertAllH rid (D.updated ++ D.added)
+          (S.2.filter (fun e => !(D.deleted ++ D.updated.map (fun rp => rid rp.1)).contains e.1)) =
+          insertAllH rid D.added (insertAllH rid D.updated
+            (S.2.filter (fun e => !(D.deleted ++ D.updated.map (fun rp => rid rp.1)).contains e.1))) := by
+        simp [insertAllH, List.foldl_append]
+      rw [hH] at this
+      simpa [withPayload] using this
+  nodup S c L h := by
+    have := W.nodup S.1 c _ h.1
+    unfold NodupIds at *
+    rw [List.map_map] at this
+    exact this
+  config S c L h := W.config S.1 c _ h.1
+  routes S c L h := by
+    have hp := (W.routes S.1 c _ h.1).filterMap
+      (fun r => (lookupA (rid r) S.2).map fun p => (r, p))
+    rw [filterMap_map_of_left_inv (·.1) _ L (by intro x hx; simp [h.2 x hx])] at hp
+    exact hp
+  match_nodup S c L h q := by
+    have := W.match_nodup S.1 c _ h.1 q
+    exact List.Nodup.sublist (map_rid_filterMap_sublist rid S.2 _) this
+  match_sub S c L h q x hx := by
+    simp only [withPayload, List.mem_filterMap, Option.map_eq_some_iff] at hx
+    obtain ⟨r, hr, p, hp, rfl⟩ := hx
+    have hrL := W.match_sub S.1 c _ h.1 q r hr
+    obtain ⟨rp, hrp, rfl⟩ := List.mem_map.mp hrL
+    have := h.2 rp hrp
+    rw [hp] at this
+    cases this
+    exact hrp
+  match_perm S S' c L L' h h' hm q := by
+    have hm1 : ∀ x, x ∈ L.map (·.1) ↔ x ∈ L'.map (·.1) := by
+      intro x
+      simp only [List.mem_map]
+      constructor
+      · rintro ⟨rp, hrp, rfl⟩; exact ⟨rp, (hm rp).mp hrp, rfl⟩
+      · rintro ⟨rp, hrp, rfl⟩; exact ⟨rp, (hm rp).mpr hrp, rfl⟩
+    have hp := (W.match_perm S.1 S'.1 c _ _ h.1 h'.1 hm1 q).filterMap
+      (fun r => (lookupA (rid r) S.2).map fun p => (r, p))
+    refine hp.trans ?_
+    have : ((A.view S'.1).matchReq q).filterMap (fun r => (lookupA (rid r) S.2).map fun p => (r, p)) =
+        ((A.view S'.1).matchReq q).filterMap (fun r => (lookupA (rid r) S'.2).map fun p => (r, p)) := by
+      apply filterMap_congr'
+      intro r hr
+      have hrL := W.match_sub S'.1 c _ h'.1 q r hr
+      obtain ⟨rp, hrp, rfl⟩ := List.mem_map.mp hrL
+      rw [h'.2 rp hrp, h.2 rp ((hm rp).mpr hrp)]
+    simp only [withPayload]
+    rw [this]
+  trace_canon S S' c L L' h h' hm q := by
+    have hm1 : ∀ x, x ∈ L.map (·.1) ↔ x ∈ L'.map (·.1) := by
+      intro x
+      simp only [List.mem_map]
+      constructor
+      · rintro ⟨rp, hrp, rfl⟩; exact ⟨rp, (hm rp).mp hrp, rfl⟩
+      · rintro ⟨rp, hrp, rfl⟩; exact ⟨rp, (hm rp).mpr hrp, rfl⟩
+    exact W.trace_canon S.1 S'.1 c _ _ h.1 h'.1 hm1 q
 
 end
 
